@@ -111,6 +111,77 @@ send_config!(q13_send_channel_config_r32, 32);
 send_config!(q13_send_channel_config_r4095, 4095);
 send_config!(q13_send_channel_config_r4096, 4096);
 
+// "A channel closes exactly when its declared record count has been sent": the closing decision
+// (`is_last`) and the declared count itself.
+harness! {
+    fn q13_total_records_last_record_and_count() {
+        use crate::protocol::RecordId;
+        let n: usize = kani::any();
+        let r: u32 = kani::any();
+        match TotalRecords::specified(n) {
+            Ok(t) => {
+                assert!(n >= 1, "a zero record count is refused");
+                assert!(t.count() == Some(n) && t.is_specified() && !t.is_indeterminate());
+                assert!(t.is_last(RecordId::from(r)) == (r as usize == n - 1), "exactly the last declared record closes the channel");
+            }
+            Err(e) => {
+                assert!(n == 0);
+                std::mem::forget(e);
+            }
+        }
+        assert!(!TotalRecords::Indeterminate.is_last(RecordId::from(r)) && !TotalRecords::Unspecified.is_last(RecordId::from(r)));
+        assert!(TotalRecords::Indeterminate.count().is_none() && TotalRecords::Unspecified.count().is_none());
+        assert!(TotalRecords::Indeterminate.is_specified() && !TotalRecords::Unspecified.is_specified());
+        assert!(TotalRecords::ONE.count() == Some(1));
+        kani::cover!(n == 0);
+        kani::cover!(n > 1 && r as usize == n - 1);
+    }
+}
+
+harness! {
+    fn q13_total_records_overwrite() {
+        // Unspecified accepts any value; Specified may only become Indeterminate
+        let n: usize = kani::any();
+        kani::assume(n >= 1);
+        let spec = TotalRecords::Specified(NonZeroUsize::new(n).unwrap());
+        let a = TotalRecords::Unspecified.overwrite(spec);
+        assert!(a.count() == Some(n));
+        let b = TotalRecords::Unspecified.overwrite(TotalRecords::Indeterminate);
+        assert!(b.is_indeterminate());
+        let c = spec.overwrite(TotalRecords::Indeterminate);
+        assert!(c.is_indeterminate());
+        kani::cover!(true);
+    }
+}
+
+harness! {
+    fn q13_active_work_from_query_size() {
+        // the active window derived from the query size: a power of two in [2, default], at least the
+        // input size when that is below the default, and never a panic for any admissible size
+        use crate::ff::FieldType;
+        use crate::helpers::query::{QueryConfig, QueryType};
+        let size: u32 = kani::any();
+        let qc = match QueryConfig::new(QueryType::TestMultiply, FieldType::Fp32BitPrime, size) {
+            Ok(c) => c,
+            Err(e) => {
+                std::mem::forget(e);
+                kani::assume(false);
+                unreachable!()
+            }
+        };
+        let mut g = GatewayConfig::default();
+        let dflt = g.active_work().get();
+        g.set_active_work_from_query_config(&qc);
+        let a = g.active_work().get();
+        assert!(a & (a - 1) == 0 && a >= 2, "active work is a power of two, at least 2");
+        assert!(a <= dflt, "never above the default window");
+        assert!(a >= std::cmp::min(size as usize, dflt), "covers the whole input when it is smaller than the default window");
+        assert!(a < 2 * std::cmp::max(2, size as usize), "and is the smallest such power of two");
+        kani::cover!(size == 1);
+        kani::cover!(size as usize > dflt);
+    }
+}
+
 // "sending beyond the count is an error": the record-count check at the top of GatewaySender::send,
 // observed through the first poll of the real future over a real OrderingSender.
 harness! {
